@@ -312,6 +312,9 @@ func checkToolchain(c *Ctx, prop string) error {
 		if err := toolSameProcess(c, env, cal); err != nil {
 			return err
 		}
+		if err := validateSuiteTraces(c); err != nil {
+			return err
+		}
 	}
 	perCmd := map[string]int{}
 	for i := range cases {
